@@ -35,5 +35,5 @@ pub mod vdaf;
 // so that they can reach crate-private items. Neither module exists in a normal build.
 #[cfg(all(kani, feature = "prio_verif"))]
 mod verif_harness {
-    include!(env!("PRIO_VERIF_HARNESS"));
+    include!(concat!(env!("PRIO_VERIF_DIR"), "/in_root.rs"));
 }
